@@ -391,6 +391,9 @@ func splitPeriod(mpd *m.MPD, a *asset, cfg *ResponseConfig, wTimes wrapTimes) er
 
 	startPeriodNr := wTimes.startTimeMS / (periodDur * 1000)
 	endPeriodNr := wTimes.nowMS / (periodDur * 1000)
+	if endPeriodNr < startPeriodNr {
+		return fmt.Errorf("no period between %dms and %dms", wTimes.startTimeMS, wTimes.nowMS)
+	}
 	inPeriod := mpd.Periods[0]
 	nrPeriods := endPeriodNr - startPeriodNr + 1
 	periods := make([]*m.Period, 0, nrPeriods)
